@@ -206,7 +206,7 @@ def plan(tier, seed):
     shards = [('singles', k) for k in range(NSHARDS)]
     shards += [('classpairs', k) for k in range(NSHARDS)]
     shards += [('asciipairs', k) for k in range(NSHARDS)]
-    shards += [('extras', k) for k in (0, 1, 3)]
+    shards += [('extras', k) for k in (0, 1, 3, 4)]
     shards += [('rand', nrand // NSHARDS, seed * 1000 + k) for k in range(NSHARDS)]
     if tier == 'thorough':
         shards += [('allpairs', k, 64) for k in range(64)]
@@ -217,7 +217,7 @@ def plan(tier, seed):
                                  'pair:ends-control-word>space', 'pair:ends-brace>letter',
                                  'pair:ends-control-symbol>letter', 'double-newline',
                                  'ascii-pairs', 'table-coverage-checked', 'decomposed-input',
-                                 'edge-whitespace']}
+                                 'edge-whitespace', 'after-private-customisation']}
 
 
 def class_pairs():
@@ -278,6 +278,42 @@ def run_extras(k, res):
                     check(s, cfg, res, {'s': s, 'cfg': list(cfg)})
                 res.nontriv_distinct()
             res.label('decomposed-input')
+    elif k == 4:
+        # a caller customises its *own* copies of the default databases the documented way
+        # (get_default_latex_context_db() + add_context_category(prepend=True)) and uses them in a
+        # private converter; round trips through default converters created afterwards are as before
+        from pylatexenc import latex2text, latexwalker, macrospec
+        tdb = latex2text.get_default_latex_context_db()
+        tdb.add_context_category('pv-private', prepend=True, macros=[
+            latex2text.MacroTextSpec('ss', 'SS!'), latex2text.MacroTextSpec('ae', 'AE!'),
+            latex2text.MacroTextSpec('texteuro', 'EUR!'), latex2text.MacroTextSpec("'", 'ACC!'),
+            latex2text.MacroTextSpec('alpha', 'ALPHA!'), latex2text.MacroTextSpec('l', 'L!')],
+            specials=[latex2text.SpecialsTextSpec('~', 'TIE!')])
+        wdb = latexwalker.get_default_latex_context_db()
+        wdb.add_context_category('pv-private', prepend=True,
+                                 macros=[macrospec.MacroSpec('ss', '{'), macrospec.MacroSpec('o', '{')])
+        res.case()
+        try:
+            private = latex2text.LatexNodes2Text(latex_context=tdb)
+            got = private.latex_to_text('\\ss{} \\alpha')
+            if 'SS!' not in got or 'ALPHA!' not in got:
+                res.fail('c08:private-customisation-ineffective', '%r' % got,
+                         {'s': '', 'cfg': ['braces', False], 'extras': 4})
+            latexwalker.LatexWalker('\\ss{x}', latex_context=wdb).get_latex_nodes()
+        except Exception as e:
+            res.fail(exc_key(e), exc_detail(e), {'s': '', 'cfg': ['braces', False], 'extras': 4})
+        _L2T.clear()
+        try:
+            for s in pinned[::5] + ['\u00df', '\u00e6', '\u20ac', '\u00e9', '\u03b1', '\u0142',
+                                    'a\xa0b', '\u00f8x', 'stra\u00dfe \u00e6on']:
+                if not valid_domain(s):
+                    continue
+                for cfg in CONFIGS:
+                    check(s, cfg, res, {'s': s, 'cfg': list(cfg), 'extras': 4})
+                res.nontriv_distinct()
+        finally:
+            _L2T.clear()
+        res.label('after-private-customisation')
     elif k == 2:
         sample = pinned[::7] + ['é x', 'a{b}', '— –', 'ñ\nx', '\\textbf', '50% & #1']
         for s in sample:
@@ -423,11 +459,14 @@ def check_case(case, res):
     if case.get('helper'):
         run_extras(2, res)
         return
+    if case.get('extras') == 4:
+        run_extras(4, res)
+        return
     check(case['s'], tuple(case['cfg']), res, case, single=bool(case.get('single')))
 
 
 def minimise(case, key):
-    if case.get('single'):
+    if case.get('single') or case.get('extras'):
         return case
 
     def pred(t):
